@@ -180,6 +180,9 @@ pub struct Config {
     /// Whether to stop searching when a non-matching line is found after a
     /// matching line.
     stop_on_nonmatch: bool,
+    /// Verification hook: initial capacity of the roll buffer, when set.
+    #[cfg(ripgrep_verif)]
+    verif_buffer_capacity: Option<usize>,
 }
 
 impl Default for Config {
@@ -198,6 +201,8 @@ impl Default for Config {
             encoding: None,
             bom_sniffing: true,
             stop_on_nonmatch: false,
+            #[cfg(ripgrep_verif)]
+            verif_buffer_capacity: None,
         }
     }
 }
@@ -227,6 +232,10 @@ impl Config {
             builder
                 .capacity(capacity)
                 .buffer_alloc(BufferAllocation::Error(additional));
+        }
+        #[cfg(ripgrep_verif)]
+        if let Some(capacity) = self.verif_buffer_capacity {
+            builder.capacity(capacity);
         }
         builder.build()
     }
@@ -331,6 +340,18 @@ impl SearcherBuilder {
             line_buffer: RefCell::new(self.config.line_buffer()),
             multi_line_buffer: RefCell::new(vec![]),
         }
+    }
+
+    /// Verification hook: set the initial capacity of the incremental line
+    /// buffer (growth policy unchanged). Only present with
+    /// `--cfg ripgrep_verif`.
+    #[cfg(ripgrep_verif)]
+    pub fn verif_buffer_capacity(
+        &mut self,
+        capacity: Option<usize>,
+    ) -> &mut SearcherBuilder {
+        self.config.verif_buffer_capacity = capacity;
+        self
     }
 
     /// Set the line terminator that is used by the searcher.
